@@ -21,8 +21,10 @@ Definition to_be (n : nat) (h : Z) : list Z := to_be_acc n h [].
 Definition slice (a b : Z) (l : list Z) : list Z :=
   firstn (Z.to_nat (b - a)) (skipn (Z.to_nat a) l).
 
-(* harness literals: a byte string is written as (length, big-endian integer) *)
-Definition bytes_of (p : Z * Z) : list Z := to_be (Z.to_nat (fst p)) (snd p).
+(* harness literals: a byte string is written as a list of chunks (length, big-endian integer);
+   chunks keep numerals short (Coq parses long numerals in super-linear time) *)
+Definition bytes_of (cs : list (Z * Z)) : list Z :=
+  concat (map (fun p => to_be (Z.to_nat (fst p)) (snd p)) cs).
 
 (* ---------- bit strings (MSB first) ---------- *)
 Fixpoint bits (k : nat) (v : Z) : list bool :=
